@@ -708,6 +708,8 @@ impl SvgElement {
                     )));
                 }
                 seen.push(el.order_index.clone());
+                // an intermediate use/reuse must itself be placed already
+                el.ensure_positioned()?;
                 element = el;
             } else {
                 return Err(SvgdxError::ReferenceError(elref));
@@ -806,7 +808,7 @@ impl SvgElement {
 
     /// Error if this element is registered (e.g. as a forward reference target) but
     /// its position is not yet resolved; any geometry derived now would be wrong.
-    fn ensure_positioned(&self) -> Result<()> {
+    pub(crate) fn ensure_positioned(&self) -> Result<()> {
         if self.content_bbox.is_none() && self.has_pending_position() {
             return Err(SvgdxError::InvalidData(format!(
                 "Element not yet positioned: {self}"
@@ -1048,7 +1050,10 @@ impl SvgElement {
     fn eval_size_attr(&self, name: &str, value: &str, ctx: &impl ElementMap) -> Result<String> {
         if let Ok(attr_ss) = ScalarSpec::from_str(name) {
             if let (Some(el), remain) = split_relspec(value, ctx)? {
-                if let Some(bbox) = ctx.get_element_bbox(el)? {
+                let bbox = ctx
+                    .get_element_bbox(el)?
+                    .ok_or_else(|| SvgdxError::MissingBoundingBox(el.to_string()))?;
+                {
                     // default value - same 'type' as attr name, e.g. y2 => ymax
                     let mut v = bbox.scalarspec(attr_ss);
                     // "[~scalarspec][ delta]"
@@ -1069,9 +1074,10 @@ impl SvgElement {
     fn eval_pos_attr(&self, name: &str, value: &str, ctx: &impl ElementMap) -> Result<String> {
         if let Ok(attr_ss) = ScalarSpec::from_str(name) {
             if let (Some(el), remain) = split_relspec(value, ctx)? {
-                if let Some(bbox) = ctx.get_element_bbox(el)? {
-                    return self.pos_attr_helper(remain, &bbox, attr_ss);
-                }
+                let bbox = ctx
+                    .get_element_bbox(el)?
+                    .ok_or_else(|| SvgdxError::MissingBoundingBox(el.to_string()))?;
+                return self.pos_attr_helper(remain, &bbox, attr_ss);
             }
         }
         Ok(value.to_owned())
@@ -1208,10 +1214,12 @@ impl SvgElement {
                 Some(el) => el,
                 None => return Ok(()),
             };
-            if let (Some(bbox), Some(skip_rp_sep)) = (
-                ctx.get_element_bbox(ref_el)?,
-                remain.strip_prefix(RELPOS_SEP),
-            ) {
+            if let Some(skip_rp_sep) = remain.strip_prefix(RELPOS_SEP) {
+                // a target without a bounding box (e.g. a group not evaluated yet)
+                // cannot be positioned against
+                let bbox = ctx
+                    .get_element_bbox(ref_el)?
+                    .ok_or_else(|| SvgdxError::MissingBoundingBox(ref_el.to_string()))?;
                 let parts = skip_rp_sep.find(|c: char| c.is_whitespace());
                 let (reldir, remain) = if let Some(split_idx) = parts {
                     let (a, b) = skip_rp_sep.split_at(split_idx);
